@@ -4,6 +4,7 @@ package main
 // exists, implies, iff, ite, spec.f) over symbolic states.
 
 import (
+	"os"
 	"fmt"
 	"go/ast"
 	"go/constant"
@@ -28,6 +29,7 @@ type evalCtx struct {
 	loopVar func(n int, name string) (Val, bool)
 	entryName func(name string) (Val, bool)
 	inQuant bool
+	calleeFact bool // evaluating a callee's contract at a call site
 	loopEntry *State
 }
 
@@ -330,6 +332,47 @@ var convNames = map[string]types.BasicKind{
 // a bounded stand-in run (parameter lengths are assumed within it there).
 const boundedQ = 5
 
+// noReindex switches quantifier re-indexing off (GOVC_NOREINDEX=1, for comparison).
+var noReindex = os.Getenv("GOVC_NOREINDEX") != ""
+
+// reindexAll: also re-index quantifiers of the function's own clauses
+// (invariants, postconditions), not only facts taken from callee contracts.
+var reindexAll = os.Getenv("GOVC_REINDEX_ALL") != ""
+
+// quantAnchor finds the first x[name] in body (outside old/before) whose x
+// does not mention the bound name.
+func quantAnchor(body ast.Expr, name string) ast.Expr {
+	var found ast.Expr
+	mentions := func(x ast.Expr) bool {
+		m := false
+		ast.Inspect(x, func(n ast.Node) bool {
+			if id, ok := n.(*ast.Ident); ok && id.Name == name {
+				m = true
+			}
+			return !m
+		})
+		return m
+	}
+	ast.Inspect(body, func(n ast.Node) bool {
+		if found != nil {
+			return false
+		}
+		switch t := n.(type) {
+		case *ast.CallExpr:
+			if id, ok := t.Fun.(*ast.Ident); ok && (id.Name == "old" || id.Name == "before" || id.Name == "forall" || id.Name == "exists") {
+				return false
+			}
+		case *ast.IndexExpr:
+			if id, ok := t.Index.(*ast.Ident); ok && id.Name == name && !mentions(t.X) {
+				found = t.X
+				return false
+			}
+		}
+		return true
+	})
+	return found
+}
+
 func (e *evalCtx) quant(t *ast.CallExpr, q string) Val {
 	if len(t.Args) != 4 {
 		e.fail("%s(i, lo, hi, body) expected", q)
@@ -376,10 +419,31 @@ func (e *evalCtx) quant(t *ast.CallExpr, q string) Val {
 	}
 	e.c.qctr++
 	bn := fmt.Sprintf("%s_q%d", id.Name, e.c.qctr)
-	inner := e.withBound(id.Name, mathInt(bn))
+	bv := bn
+	rng := and(sx("<=", lo, bn), sx("<", bn, hi))
+	// Re-indexing: when the body reads x[i] for a slice x, quantify over the
+	// absolute position a = off(x)+i in x's object instead of i. The read
+	// then is (select row a) with the plain bound variable as index, which is
+	// what E-matching needs to instantiate the fact at any position of that
+	// object, however the position is written.
+	if ax := quantAnchor(t.Args[3], id.Name); ax != nil && !noReindex && (reindexAll || e.c.con != nil && e.c.con.Reindex) {
+		func() {
+			defer func() {
+				if r := recover(); r != nil {
+					if _, ok := r.(unsupported); !ok {
+						panic(r)
+					}
+				}
+			}()
+			if v := e.eval(ax); v.K == kSlice && v.Off != "0" {
+				bv = sub(bn, v.Off)
+				rng = and(sx("<=", add(v.Off, lo), bn), sx("<", bn, add(v.Off, hi)))
+			}
+		}()
+	}
+	inner := e.withBound(id.Name, mathInt(bv))
 	inner.inQuant = true
 	body := inner.boolOf(t.Args[3])
-	rng := and(sx("<=", lo, bn), sx("<", bn, hi))
 	if q == "forall" {
 		return boolVal(fmt.Sprintf("(forall ((%s Int)) (=> %s %s))", bn, rng, body))
 	}
